@@ -1,18 +1,289 @@
 """C10 — lookups and queries inside a session see the session's own unflushed changes.
 
-The harness is shared with C09 (engines/sess_shared.py).  Property oracle (this engine reports): after every modification,
-before and after flushes, every read form — attribute access, collection iteration / len / count() / is_empty() / `in` /
-bool / select(), E[pk], get() by primary key, unique key, composite key, keyword and relationship, exists(), select() with
-and without keyword filters, generator and lambda queries, aggregates, to_dict() — must give what the in-memory shadow of
-the program's state says.  Tie: as for C09 (the model's `load` / `hasLink` / flush-before-query behaviour is compared
-with the real session through the shared driver entry), plus the SetData count model (Model/SetCount.lean).
+Part A (shared harness, engines/sess_shared.py — see there): random entity models and multi-session histories on a file
+database; after every modification, before and after flushes, every read form — attribute access, collection iteration /
+len / count() / is_empty() / `in` / bool / select(), E[pk], get() by primary key, unique key, composite key, keyword and
+relationship, exists(), select() with and without keyword filters, generator and lambda queries, aggregates, to_dict() —
+must give what the in-memory shadow of the program's state says (property oracle); the Lean model Model/SessStore.lean
+(`load`, `hasLink`, auto-flush before a query) is driven with the same histories (correspondence).
+
+Part B (this file): the SetData bookkeeping model Model/SetCount.lean.  One watched collection `owner.coll` (one-to-many,
+or either side of a many-to-many) over real Pony: items are loaded, linked / unlinked from the other side, added, removed,
+counted, measured and flushed in random order; after every call the real SetData (items, is_fully_loaded, count, added,
+removed) is compared with the model, loads observed on the real code are fed to the model as `seen` / `loadAll`
+(correspondence); `count()` and `len()` are compared with the number of items the program has (property oracle).
+The witnesses of `C10_count_full_false_*` (Props/C10.lean) are replayed on the real code on every run; which of the two
+defective places the real code still has decides the model configuration (`fixRemove`, `fixFlush`).
 """
-import json
+import json, random
+from pony.orm import Database, Required, Optional, Set, PrimaryKey, db_session, commit, rollback, flush
+from pony.orm import core
 from engines import sess_shared as S
+
+# ---------------------------------------------------------------- regression inputs (defects repaired in /repo)
+
+R_SET_AFTER_REMOVE = {   # commit fc04eec: `a.bs = [b1,b2,b3]; flush; a.bs.remove(b1); a.bs = [b1,b3,b4]; commit` left the a-b2 link row
+    'schema': {'ents': [{'pk': 'explicit', 'scalars': [{'name': 's0', 'req': False, 'unique': False}], 'ckey': False},
+                        {'pk': 'explicit', 'scalars': [{'name': 's0', 'req': False, 'unique': False}], 'ckey': False}],
+               'rels': [{'kind': 'm2m', 'sym': False, 'a': {'ent': 0, 'coll': True, 'req': False, 'opt_casc': None},
+                         'b': {'ent': 1, 'coll': True, 'req': False, 'opt_casc': None}}]},
+    'ops': [{'k': 'create', 'oid': 0, 'e': 0, 'pk': 1, 'scalars': {}, 'refs': {}, 'colls': {}, 'rs': 1},
+            {'k': 'create', 'oid': 1, 'e': 1, 'pk': 1, 'scalars': {}, 'refs': {}, 'colls': {}, 'rs': 2},
+            {'k': 'create', 'oid': 2, 'e': 1, 'pk': 2, 'scalars': {}, 'refs': {}, 'colls': {}, 'rs': 3},
+            {'k': 'create', 'oid': 3, 'e': 1, 'pk': 3, 'scalars': {}, 'refs': {}, 'colls': {}, 'rs': 4},
+            {'k': 'create', 'oid': 4, 'e': 1, 'pk': 4, 'scalars': {}, 'refs': {}, 'colls': {}, 'rs': 5},
+            {'k': 'coll_set', 'o': 0, 'key': [0, False], 'items': [1, 2, 3], 'via': 'list', 'rs': 6},
+            {'k': 'flush', 'rs': 7},
+            {'k': 'coll_remove', 'o': 0, 'key': [0, False], 'items': [1], 'via': 'single', 'rs': 8},
+            {'k': 'coll_set', 'o': 0, 'key': [0, False], 'items': [1, 3, 4], 'via': 'list', 'rs': 9},
+            {'k': 'commit', 'rs': 10}]}
+R_COUNT_TWICE = {        # commit 69b7a62: `a.bs.add([b1,b2]); a.bs.remove(b1)` on a one-to-many of new objects: count() == 0, len == 1
+    'schema': {'ents': [{'pk': 'auto', 'scalars': [{'name': 's0', 'req': False, 'unique': False}], 'ckey': False},
+                        {'pk': 'auto', 'scalars': [{'name': 's0', 'req': False, 'unique': False}], 'ckey': False}],
+               'rels': [{'kind': 'm2o', 'sym': False, 'a': {'ent': 0, 'coll': True, 'req': False, 'opt_casc': None},
+                         'b': {'ent': 1, 'coll': False, 'req': False, 'opt_casc': None}}]},
+    'ops': [{'k': 'create', 'oid': 0, 'e': 0, 'pk': None, 'scalars': {}, 'refs': {}, 'colls': {}, 'rs': 1},
+            {'k': 'create', 'oid': 1, 'e': 1, 'pk': None, 'scalars': {}, 'refs': {}, 'colls': {}, 'rs': 2},
+            {'k': 'create', 'oid': 2, 'e': 1, 'pk': None, 'scalars': {}, 'refs': {}, 'colls': {}, 'rs': 3},
+            {'k': 'coll_add', 'o': 0, 'key': [0, False], 'items': [1, 2], 'via': 'list', 'rs': 4},
+            {'k': 'coll_remove', 'o': 0, 'key': [0, False], 'items': [1], 'via': 'single', 'rs': 5}]}
+REGRESSIONS = [('set-after-unflushed-remove', R_SET_AFTER_REMOVE), ('one-to-many-remove-count', R_COUNT_TWICE)]
+
+# ---------------------------------------------------------------- part B: one watched collection
+
+
+class Watch:
+    """owner.coll over real Pony; kind 'o2m' | 'm2m'; `owning`: the flush collects the many-to-many pairs from the watched side"""
+    def __init__(self, kind, owning):
+        self.kind = kind; self.owning = owning
+        self.db = db = Database()
+        # _calc_modified_m2m sorts by (entity name, attribute name): the first attribute of the pair supplies the pairs
+        on, iname = ('E1', 'E2') if (kind == 'o2m' or owning) else ('E2', 'E1')
+        od = {'id': PrimaryKey(int), 'coll': Set(iname, reverse='back')}
+        idict = {'id': PrimaryKey(int), 'back': (Optional(on, reverse='coll') if kind == 'o2m' else Set(on, reverse='coll'))}
+        if on < iname:
+            self.Owner = type(on, (db.Entity,), od); self.Item = type(iname, (db.Entity,), idict)
+        else:
+            self.Item = type(iname, (db.Entity,), idict); self.Owner = type(on, (db.Entity,), od)
+        db.bind('sqlite', ':memory:')
+        db.generate_mapping(create_tables=True)
+        self.attr = self.Owner.coll
+
+    def close(self):
+        try: self.db.disconnect()
+        except Exception: pass
+
+    def sd(self, owner, items):
+        s = owner._vals_.get(self.attr)
+        if s is None: return {'items': [], 'fully': False, 'count': None, 'added': [], 'removed': []}
+        idx = lambda xs: sorted(x._pkval_ for x in (xs or ()))
+        return {'items': idx(s), 'fully': bool(s.is_fully_loaded), 'count': s.count, 'added': idx(s.added), 'removed': idx(s.removed)}
+
+
+def norm_sd(d):
+    return {'items': sorted(d['items']), 'fully': bool(d['fully']), 'count': d['count'], 'added': sorted(d['added']), 'removed': sorted(d['removed'])}
+
+
+def watch_history(ctx, rng, kind, owning, cfg, nops, given=None):
+    """one scenario: setup session commits some links; the watched session runs `nops` random calls.
+    Returns (model request, per-op expectations) or None; reports oracle findings through ctx."""
+    w = Watch(kind, owning)
+    N = 5                                   # items 1..N persisted, N+1.. created inside the session
+    try:
+        linked = sorted(rng.sample(range(1, N + 1), rng.choice([0, 1, 2, 3]))) if given is None else given['db']
+        with db_session:
+            o = w.Owner(id=1); o2 = w.Owner(id=2)
+            its = {i: w.Item(id=i) for i in range(1, N + 1)}
+            for i in linked:
+                if kind == 'o2m': its[i].back = o
+                else: o.coll.add(its[i])
+        ops, mops, checks = [], [], []
+        L = set(linked)                     # what the program has in the collection
+        findings = []
+        db_session.__enter__()
+        try:
+            owner = w.Owner[1]; other = w.Owner[2]
+            items = {}
+            nxt = N + 1
+            script = given['ops'] if given is not None else None
+            for step in range(nops if script is None else len(script)):
+                before = w.sd(owner, items)
+                Lprev = set(L)
+                if script is not None: op = script[step]
+                else:
+                    k = rng.choice(['load_item', 'rev_add', 'rev_add', 'rev_remove', 'rev_remove', 'add', 'add', 'remove', 'remove', 'remove',
+                                    'len', 'count', 'count', 'flush', 'new_item'])
+                    x = rng.randrange(1, nxt)
+                    if k == 'new_item':
+                        x = nxt
+                        if nxt > N + 3: continue
+                    op = {'k': k, 'x': x}
+                k, x = op['k'], op.get('x')
+                pre = []; mop = None; ret = None; exp = None
+                cache = core.local.db2cache.get(w.db)
+                def flushed_since(was_modified):
+                    return bool(was_modified and cache is not None and not cache.modified)
+                if k == 'new_item':
+                    items[x] = w.Item(id=x); nxt = max(nxt, x + 1)
+                elif k in ('load_item', 'rev_add', 'rev_remove', 'add', 'remove'):
+                    if x not in items:
+                        # sub-step: the item's row is fetched (implicit flush first, when the session is modified)
+                        wasmod = cache is not None and cache.modified
+                        try: items[x] = w.Item[x]
+                        except Exception: continue
+                        if flushed_since(wasmod): mops.append({'k': 'flush'}); checks.append(None); ctx.count('setdata:implicit-flush:item-fetch')
+                        mid = w.sd(owner, items)
+                        for i in mid['items']:
+                            if i not in before['items']: mops.append({'k': 'seen', 'x': i}); checks.append(None)
+                        before = mid
+                    it = items[x]
+                    if it._status_ in core.del_statuses: continue
+                    if k == 'load_item': pass
+                    elif k == 'rev_add':
+                        if x in L: continue
+                        if kind == 'o2m': it.back = owner
+                        else: it.back.add(owner)
+                        L.add(x); mop = {'k': 'revAdd', 'x': x}
+                    elif k == 'rev_remove':
+                        if x not in L: continue
+                        if kind == 'o2m': it.back = rng.choice([None, other]) if script is None else None
+                        else: it.back.remove(owner)
+                        L.discard(x); mop = {'k': 'revRemove', 'x': x}
+                    elif k == 'add':
+                        owner.coll.add(it); L.add(x); mop = {'k': 'add', 'x': x}
+                    elif k == 'remove':
+                        owner.coll.remove(it); L.discard(x); mop = {'k': 'remove', 'x': x}
+                elif k == 'len':
+                    wasmod = cache is not None and cache.modified
+                    ret = len(owner.coll); exp = len(L); mop = {'k': 'loadAll'}
+                    if flushed_since(wasmod): pre.append({'k': 'flush'}); ctx.count('setdata:implicit-flush:len')
+                elif k == 'count':
+                    ret = owner.coll.count(); exp = len(L); mop = {'k': 'count'}
+                elif k == 'flush':
+                    flush(); mop = {'k': 'flush'}
+                after = w.sd(owner, items)
+                # loads the real call did on the way: a full load, or single items that are in the collection
+                adds = mop is not None and mop['k'] in ('revAdd', 'add')
+                takes = mop is not None and mop['k'] in ('revRemove', 'remove')
+                if after['fully'] and not before['fully'] and k != 'len':
+                    pre.append({'k': 'loadAll'})
+                else:
+                    for i in after['items']:
+                        if i in before['items']: continue
+                        if adds and i == x and x not in Lprev: continue        # the new member itself
+                        pre.append({'k': 'seen', 'x': i})
+                    if takes and x in Lprev and x not in before['items'] and x not in before['removed'] and not before['fully']:
+                        pre.append({'k': 'seen', 'x': x})     # the item was loaded (Set.load(obj, {x}) / its own row) before it was taken out
+                for p in pre: mops.append(p); checks.append(None)
+                if mop is not None:
+                    mops.append(mop); checks.append({'sd': norm_sd(after), 'ret': ret, 'op': op})
+                ops.append(op)
+                ctx.count('setdata:op:' + k)
+                ctx.case({'watch': kind, 'owning': owning, 'i': step, 'op': op}, nontrivial=True, kind='setdata-call')
+                if ret is not None and ret != exp:
+                    findings.append({'k': k, 'got': ret, 'expected': exp, 'ops': list(ops), 'db': linked})
+                    break
+        finally:
+            try: db_session.__exit__(RuntimeError, RuntimeError('end'), None)
+            except Exception: pass
+            core.local.db_session = None; core.local.db_context_counter = 0
+        return {'db': linked, 'ops': ops, 'mops': mops, 'checks': checks, 'findings': findings}
+    finally:
+        w.close()
+
+
+def probe_cfg(ctx):
+    """replay the witnesses of C10_count_full_false_remove / _flush on the real code: which defective places are still there"""
+    out = {}
+    rng = random.Random(0)
+    # remove: owner with one committed item, a new item added and removed again, count()
+    r = watch_history(ctx, rng, 'o2m', True, None, 0, given={'db': [5], 'ops': [{'k': 'new_item', 'x': 6}, {'k': 'add', 'x': 6}, {'k': 'remove', 'x': 6}, {'k': 'count'}]})
+    out['fixRemove'] = not r['findings']
+    if r['findings']:
+        f = r['findings'][0]
+        ctx.violation('count() of a one-to-many collection is wrong after remove(): the removed item is recorded in `removed` although it was never in the database',
+                      {'watch': 'o2m', 'db': [5], 'ops': f['ops']}, observed=f['got'], expected=f['expected'], key='coll-count:o2m:after-remove')
+        ctx.count('witness-reproduced:C10_count_full_false_remove')
+    else: ctx.count('witness-not-reproduced:C10_count_full_false_remove')
+    # flush: many-to-many, watched side does not supply the pairs; item unlinked from the other side, flush, count()
+    r = watch_history(ctx, rng, 'm2m', False, None, 0, given={'db': [4], 'ops': [{'k': 'rev_remove', 'x': 4}, {'k': 'flush'}, {'k': 'count'}]})
+    out['fixFlush'] = not r['findings']
+    if r['findings']:
+        f = r['findings'][0]
+        ctx.violation('count() of a many-to-many collection is wrong after a flush: the side from which the flush does not collect the pairs keeps its added / removed sets',
+                      {'watch': 'm2m', 'owning': False, 'db': [4], 'ops': f['ops']}, observed=f['got'], expected=f['expected'], key='coll-count:m2m:pending-items-kept-after-flush')
+        ctx.count('witness-reproduced:C10_count_full_false_flush')
+    else: ctx.count('witness-not-reproduced:C10_count_full_false_flush')
+    ctx.case({'witnesses': out}, kind='witness')
+    return out
+
+
+def setdata_tie(ctx, nhist, nops):
+    fixes = probe_cfg(ctx)
+    ctx.extra['real_code_configuration'] = fixes
+    rng = ctx.rng
+    batch = []
+    for h in range(nhist):
+        kind = rng.choice(['o2m', 'o2m', 'm2m', 'm2m'])
+        owning = kind == 'o2m' or rng.random() < 0.5
+        try: r = watch_history(ctx, rng, kind, owning, None, nops)
+        except Exception as e:
+            ctx.count('setdata:history-crashed:' + type(e).__name__); continue
+        ctx.count('setdata:history:%s:%s' % (kind, 'owning' if owning else 'non-owning'))
+        for f in r['findings']:
+            key = 'coll-%s:%s' % (f['k'], kind)
+            ctx.count('setdata:oracle-mismatch:' + key)
+            # the same root causes as the two witnesses are reported once, by probe_cfg; anything else is new
+            if not ((kind == 'o2m' and not fixes['fixRemove']) or (kind == 'm2m' and not owning and not fixes['fixFlush'])):
+                ctx.violation('count() / len() of a collection differs from the number of items the program has',
+                              {'watch': kind, 'owning': owning, 'db': f['db'], 'ops': f['ops']}, observed=f['got'], expected=f['expected'], key=key)
+        batch.append((kind, owning, r))
+    if not ctx.driver.ok:
+        ctx.note('driver unavailable: the SetData correspondence is skipped'); return
+    reqs = [{'op': 'run', 'cfg': {'m2m': kind == 'm2m', 'owning': owning, 'fixRemove': fixes['fixRemove'], 'fixFlush': fixes['fixFlush']},
+             'db': r['db'], 'ops': r['mops']} for kind, owning, r in batch]
+    outs = ctx.driver('C10', reqs)
+    for (kind, owning, r), out in zip(batch, outs):
+        steps = out.get('steps')
+        if steps is None:
+            if 'unknown property' in str(out.get('driver_error')): raise RuntimeError('the shared driver executable was replaced while running: %r' % out)
+            ctx.divergence('driver error', {'watch': kind, 'ops': r['ops']}, model=out); continue
+        for i, (st, chk) in enumerate(zip(steps, r['checks'])):
+            if st['err']:
+                ctx.divergence('the model hit an internal assertion the real code did not', {'watch': kind, 'owning': owning, 'db': r['db'], 'ops': r['ops'], 'model_ops': r['mops'][:i + 1]},
+                               model=st['err'], impl='ok'); break
+            if not st['valid']: ctx.count('setdata:model-op-outside-callers-guarantees')
+            if not st['safe']:
+                # outside the guard of C10_count_partial (the defect itself is reported by the witness replay): nothing to compare from here on
+                ctx.count('setdata:history-cut-at-a-defective-place'); break
+            if chk is None: continue
+            m = norm_sd(st['sd'])
+            if m != chk['sd']:
+                ctx.divergence('SetData differs after ' + chk['op']['k'], {'watch': kind, 'owning': owning, 'db': r['db'], 'ops': r['ops'], 'model_ops': r['mops'][:i + 1]},
+                               model=m, impl=chk['sd']); break
+            if chk['ret'] is not None and st['ret'] != chk['ret']:
+                ctx.divergence('returned value differs', {'watch': kind, 'ops': r['ops'], 'model_ops': r['mops'][:i + 1]}, model=st['ret'], impl=chk['ret']); break
+            ctx.count('tie:setdata-states-compared')
+
+
+# ---------------------------------------------------------------- entry points
+
+def regressions(ctx):
+    for name, hist in REGRESSIONS:
+        r = S.Run(hist['schema'], ops=hist['ops'], ctx=None)
+        try:
+            r.run()
+            ctx.case({'regression': name}, kind='regression')
+            for f in r.findings:
+                if f['prop'] == 'C10': ctx.violation(f['what'], hist, observed=f['observed'], expected=f['expected'], key=f['key'])
+                else: ctx.count('regression:%s:other-property-finding:%s' % (name, f['key']))
+        finally: r.close()
 
 
 def run(ctx):
-    S.explore(ctx, 'C10', ctx.scale(260, 6000), ctx.scale(22, 30))
+    regressions(ctx)
+    setdata_tie(ctx, ctx.scale(120, 3000), ctx.scale(14, 20))
+    S.explore(ctx, 'C10', ctx.scale(220, 6000), ctx.scale(22, 30))
 
 
 def replay(ctx, data):
@@ -25,5 +296,7 @@ def replay(ctx, data):
             for f in r.findings:
                 if f['prop'] == 'C10': ctx.violation(f['what'], inp, observed=f['observed'], expected=f['expected'], key=f['key'])
         finally: r.close()
+    elif 'watch' in inp:
+        probe_cfg(ctx)
     else:
         run(ctx)
